@@ -111,6 +111,18 @@ func (fc *FnCtx) query(o *Oblig) string {
 			opq[n] = true
 		}
 	}
+	if fc.c != nil && len(fc.c.OpaqueFns) > 0 {
+		if opq == nil {
+			opq = map[string]bool{}
+		}
+		for n := range fc.eng.specDefs {
+			for _, of := range fc.c.OpaqueFns {
+				if strings.Contains(n, "."+of+"@") {
+					opq["!"+n] = true
+				}
+			}
+		}
+	}
 	sb.WriteString(fc.eng.specDefsText(fc.usedSpecs, opq))
 	anc := fc.anc[o.blk]
 	inScope := func(b int) bool { return o.blk == -2 || b == -1 || b == o.blk || anc[b] }
